@@ -1510,7 +1510,7 @@ void EvalStrExpression(tStrComp const* pExpr, TempResult* pErg) {
                     LEAVE2;
                 }
 
-                KlPos = QuotPos(FArg.str.p_str, ',');
+                KlPos = QuotPosQualify(FArg.str.p_str, ',', QualifyQuote);
                 if (KlPos) {
                     StrCompSplitRef(&FArg, &Remainder, &FArg, KlPos);
                 }
@@ -1603,7 +1603,7 @@ void EvalStrExpression(tStrComp const* pExpr, TempResult* pErg) {
                 WrError(ErrNum_InvFuncArgCnt);
                 LEAVE;
             }
-            zp = QuotPos(FArg.str.p_str, ',');
+            zp = QuotPosQualify(FArg.str.p_str, ',', QualifyQuote);
             if (zp) {
                 StrCompSplitRef(&InArgs[cnt], &Remainder, &FArg, zp);
             } else {
